@@ -868,7 +868,7 @@ class TupleExtend(_TupleBase):
   it returns, every tuple the extended spec accepts is accepted by the base."""
   target = f'{M}:Tuple._extend'
   raises = {TypeError: ()}
-  branch_mbqi = True
+  branch_mbqi = False
 
   def setup_policy(self, policy):
     _ih_policy(policy)
@@ -900,6 +900,59 @@ class TupleExtend(_TupleBase):
 
   def ensures_extended_accepts_only_what_base_accepts(self, self_, base, value):
     return implies(acc_tuple_post(self_, value), acc_tuple(base, value))
+
+  # -- native replay / bounded search (Int elements; the element level is the IH) --
+  def mk(self, m, name):
+    n = m.get(name + '_elements.len') or 1
+    mn, mx = m[name + '_min'] or 0, m.opt(name + '_max')
+    if mx is not None and mn == mx:
+      if n != mn:
+        return None
+      return pg.typing.Tuple([pg.typing.Int() for _ in range(n)])
+    if n != 1 or (mx is not None and mn > mx):
+      return None
+    return pg.typing.Tuple(pg.typing.Int(), min_size=mn, max_size=mx)
+
+  def replay(self, obligation, m):
+    try:
+      s, base = self.mk(m, 'self'), self.mk(m, 'base')
+    except (ValueError, TypeError):
+      return dict(outcome='not-concretizable', detail='ill-formed spec')
+    if s is None or base is None:
+      return dict(outcome='not-concretizable', detail='model violates the representation invariant')
+    before = repr(s)
+    try:
+      s._extend(base)
+    except TypeError as e:
+      return dict(outcome='not-reproduced', detail=f'TypeError: {e}')
+    bad = None
+    shape_ok = (len(s.elements) == s.min_size) if s.fixed_length else (len(s.elements) == 1)
+    for n in range(0, 7):
+      v = tuple([0] * n)
+      if eacc(s, v) and not eacc(base, v):
+        bad = v
+        break
+    if bad is None and shape_ok:
+      return dict(outcome='not-reproduced', detail=f'{before}._extend({base!r}) -> {s!r}')
+    return dict(outcome='reproduced',
+                detail=f'{before}._extend({base!r}) -> {s!r} (fixed_length={s.fixed_length}, {len(s.elements)} element fields); '
+                       f'accepts {bad!r}, which the base rejects' if bad is not None else
+                       f'{before}._extend({base!r}) -> {s!r}: fixed_length={s.fixed_length} with {len(s.elements)} element fields')
+
+  def small_models(self):
+    """All pairs of tuple specs with sizes <= 3 (fixed and variable)."""
+    from pyvc.contracts import Model
+    def shapes(name):
+      for mn in range(0, 4):
+        yield {name + '_elements.len': 1, name + '_min': mn}, {name + '_max': 0}          # variable, unbounded
+        for mx in range(mn, 4):
+          if mx == mn:
+            yield {name + '_elements.len': mn, name + '_min': mn, name + '_max': mx}, {name + '_max': 1}
+          else:
+            yield {name + '_elements.len': 1, name + '_min': mn, name + '_max': mx}, {name + '_max': 1}
+    for sv, sc in shapes('self'):
+      for bv, bc in shapes('base'):
+        yield Model(dict(sv, **bv), dict(sc, **bc))
 
   def ensures_one_field_per_position_when_fixed(self, self_):
     # the shape part of the representation invariant (a spec whose inherited
